@@ -9,6 +9,7 @@
  */
 #include "verif.h"
 #define VERIF_RG_DEFAULT_HOOKS
+#define VERIF_RG_POST_STEP   /* environment also acts after each of my atomic operations */
 #include "verif_rg.h"
 #include "parsec/parsec_config.h"
 
